@@ -227,4 +227,253 @@ theorem decode_links (g : Bool) (x : Bytes) (n : Node) (e : decodeG g x = .node 
   · simp at e
   · exact run_links g _ _ linv_init n e
 
+/-! ## feeding a prefix -/
+
+def feed (g : Bool) (c : Cfg) : Bytes → Step
+  | [] => .cont c
+  | ch :: r => match step g c ch with
+    | .cont c' => feed g c' r
+    | .null => .null
+    | .fault => .fault
+
+theorem feed_append_cont {g : Bool} {c c' : Cfg} {xs : Bytes} (h : feed g c xs = .cont c') (ys : Bytes) :
+    feed g c (xs ++ ys) = feed g c' ys := by
+  induction xs generalizing c with
+  | nil => simp only [feed, Step.cont.injEq] at h; subst h; rfl
+  | cons x xs ih =>
+    simp only [feed, List.cons_append] at h ⊢
+    split at h
+    · exact ih h
+    · simp at h
+    · simp at h
+
+theorem run_append_cont {g : Bool} {c c' : Cfg} {xs : Bytes} (h : feed g c xs = .cont c') (ys : Bytes) :
+    run g c (xs ++ ys) = run g c' ys := by
+  induction xs generalizing c with
+  | nil => simp only [feed, Step.cont.injEq] at h; subst h; rfl
+  | cons x xs ih =>
+    simp only [feed] at h
+    simp only [List.cons_append, run]
+    cases h1 : step g c x with
+    | cont c1 => rw [h1] at h; exact ih h
+    | null => rw [h1] at h; simp at h
+    | fault => rw [h1] at h; simp at h
+
+/-- `c'` agrees with `c` except for `b` (and the scratch fields `ref`, `prev`, `angle`) -/
+structure Upd (c c' : Cfg) (b' : Bytes) : Prop where
+  st : c'.st = c.st
+  last : c'.last = c.last
+  b : c'.b = b'
+  atname : c'.atname = c.atname
+  stack : c'.stack = c.stack
+  next : c'.next = c.next
+
+theorem Upd.trans {c c1 c2 : Cfg} {b1 b2 : Bytes} (h1 : Upd c c1 b1) (h2 : Upd c1 c2 b2) : Upd c c2 b2 :=
+  ⟨h2.st.trans h1.st, h2.last.trans h1.last, h2.b, h2.atname.trans h1.atname, h2.stack.trans h1.stack, h2.next.trans h1.next⟩
+
+/-- a run of characters that the current state only appends to `b` -/
+theorem scan (g : Bool) (P : Cfg → Prop) (Q : UInt8 → Prop)
+    (hstep : ∀ c ch, P c → Q ch → ∃ c', step g c ch = .cont c' ∧ Upd c c' (c.b ++ [ch]))
+    (hP : ∀ c c' b', P c → Upd c c' b' → P c') :
+    ∀ (ks : Bytes) (c : Cfg), P c → (∀ ch ∈ ks, Q ch) → ∃ c', feed g c ks = .cont c' ∧ Upd c c' (c.b ++ ks) := by
+  intro ks
+  induction ks with
+  | nil => intro c _ _; exact ⟨c, rfl, ⟨rfl, rfl, by simp, rfl, rfl, rfl⟩⟩
+  | cons k ks ih =>
+    intro c hc hq
+    obtain ⟨c1, h1, u1⟩ := hstep c k hc (hq k (by simp))
+    obtain ⟨c2, h2, u2⟩ := ih c1 (hP c c1 _ hc u1) (fun ch h => hq ch (by simp [h]))
+    refine ⟨c2, ?_, ?_⟩
+    · simp only [feed, h1]; exact h2
+    · have := u1.trans u2
+      rw [u1.b] at this
+      simpa using this
+
+
+theorem forall_u8 (P : UInt8 → Prop) (h : ∀ n, n < 256 → P (UInt8.ofNat n)) : ∀ c, P c := by
+  intro c
+  have := h c.toNat c.toNat_lt
+  simpa using this
+
+theorem nameChar_facts : ∀ ch : UInt8, nameCharBad ch = false →
+    ch ≠ 62 ∧ ch ≠ 47 ∧ isWs ch = false ∧ ch ≠ 61 ∧ ch ≠ 0 := by
+  apply forall_u8; decide +kernel
+
+theorem nameStart_facts : ∀ ch : UInt8, nameStartBad ch = false →
+    ch ≠ 62 ∧ ch ≠ 47 ∧ ch ≠ 33 ∧ ch ≠ 63 ∧ isWs ch = false ∧ ch ≠ 0 ∧ nameCharBad ch = false := by
+  apply forall_u8; decide +kernel
+
+/-! ### single steps that only append to `b` -/
+
+theorem step_tag_char (g : Bool) (c : Cfg) (ch : UInt8) (hst : c.st = .tag) (hq : nameCharBad ch = false) :
+    ∃ c', step g c ch = .cont c' ∧ Upd c c' (c.b ++ [ch]) := by
+  obtain ⟨h62, h47, hws, _, _⟩ := nameChar_facts ch hq
+  obtain ⟨st, last, b, ref, atname, angle, prev, stack, next⟩ := c
+  simp only at hst; subst hst
+  simp only [step, beq_iff_eq, h62, h47, hws, hq, if_false, Bool.false_eq_true]
+  exact ⟨_, rfl, ⟨rfl, rfl, rfl, rfl, rfl, rfl⟩⟩
+
+theorem step_attName_char (g : Bool) (c : Cfg) (ch : UInt8) (hst : c.st = .attName) (hq : nameCharBad ch = false) :
+    ∃ c', step g c ch = .cont c' ∧ Upd c c' (c.b ++ [ch]) := by
+  obtain ⟨_, _, hws, h61, _⟩ := nameChar_facts ch hq
+  obtain ⟨st, last, b, ref, atname, angle, prev, stack, next⟩ := c
+  simp only at hst; subst hst
+  simp only [step, beq_iff_eq, h61, hws, hq, if_false, Bool.false_eq_true]
+  exact ⟨_, rfl, ⟨rfl, rfl, rfl, rfl, rfl, rfl⟩⟩
+
+theorem step_tagEnd_char (g : Bool) (c : Cfg) (ch : UInt8) (hst : c.st = .tagEnd) (hq : ch ≠ 62) :
+    ∃ c', step g c ch = .cont c' ∧ Upd c c' (c.b ++ [ch]) := by
+  obtain ⟨st, last, b, ref, atname, angle, prev, stack, next⟩ := c
+  simp only at hst; subst hst
+  simp only [step, beq_iff_eq, hq, if_false]
+  exact ⟨_, rfl, ⟨rfl, rfl, rfl, rfl, rfl, rfl⟩⟩
+
+theorem step_free_char (g : Bool) (c : Cfg) (ch : UInt8) (hst : c.st = .free) (hq : ch ≠ 60 ∧ ch ≠ 38) :
+    ∃ c', step g c ch = .cont c' ∧ Upd c c' (c.b ++ [ch]) := by
+  obtain ⟨st, last, b, ref, atname, angle, prev, stack, next⟩ := c
+  simp only at hst; subst hst
+  simp only [step, beq_iff_eq, hq.1, hq.2, if_false]
+  exact ⟨_, rfl, ⟨rfl, rfl, rfl, rfl, rfl, rfl⟩⟩
+
+theorem step_attVal_char (g : Bool) (c : Cfg) (ch : UInt8) (hst : c.st = .attVal) (hq : ch ≠ 34 ∧ ch ≠ 38) :
+    ∃ c', step g c ch = .cont c' ∧ Upd c c' (c.b ++ [ch]) := by
+  obtain ⟨st, last, b, ref, atname, angle, prev, stack, next⟩ := c
+  simp only at hst; subst hst
+  simp only [step, beq_iff_eq, hq.1, hq.2, if_false]
+  exact ⟨_, rfl, ⟨rfl, rfl, rfl, rfl, rfl, rfl⟩⟩
+
+theorem scan_tag (g : Bool) (ks : Bytes) (c : Cfg) (hst : c.st = .tag) (hq : ∀ ch ∈ ks, nameCharBad ch = false) :
+    ∃ c', feed g c ks = .cont c' ∧ Upd c c' (c.b ++ ks) :=
+  scan g (fun c => c.st = .tag) (fun ch => nameCharBad ch = false) (step_tag_char g)
+    (fun _ _ _ h u => u.st.trans h) ks c hst hq
+
+theorem scan_attName (g : Bool) (ks : Bytes) (c : Cfg) (hst : c.st = .attName) (hq : ∀ ch ∈ ks, nameCharBad ch = false) :
+    ∃ c', feed g c ks = .cont c' ∧ Upd c c' (c.b ++ ks) :=
+  scan g (fun c => c.st = .attName) (fun ch => nameCharBad ch = false) (step_attName_char g)
+    (fun _ _ _ h u => u.st.trans h) ks c hst hq
+
+theorem scan_tagEnd (g : Bool) (ks : Bytes) (c : Cfg) (hst : c.st = .tagEnd) (hq : ∀ ch ∈ ks, ch ≠ 62) :
+    ∃ c', feed g c ks = .cont c' ∧ Upd c c' (c.b ++ ks) :=
+  scan g (fun c => c.st = .tagEnd) (fun ch => ch ≠ 62) (step_tagEnd_char g)
+    (fun _ _ _ h u => u.st.trans h) ks c hst hq
+
+theorem scan_free (g : Bool) (ks : Bytes) (c : Cfg) (hst : c.st = .free) (hq : ∀ ch ∈ ks, ch ≠ 60 ∧ ch ≠ 38) :
+    ∃ c', feed g c ks = .cont c' ∧ Upd c c' (c.b ++ ks) :=
+  scan g (fun c => c.st = .free) (fun ch => ch ≠ 60 ∧ ch ≠ 38) (step_free_char g)
+    (fun _ _ _ h u => u.st.trans h) ks c hst hq
+
+/-! ### `escape` read back in text (`FREE`) and in a double-quoted value (`ATT_VAL`) -/
+
+def TextLike (c : Cfg) : Prop := (c.st = .free ∧ c.last = .free) ∨ (c.st = .attVal ∧ c.last = .attVal)
+
+theorem feed_escapeByte (g : Bool) (c : Cfg) (ch : UInt8) (hc : TextLike c) (h0 : ch ≠ 0) :
+    ∃ c', feed g c (escapeByte ch) = .cont c' ∧ Upd c c' (c.b ++ [ch]) := by
+  obtain ⟨st, last, b, ref, atname, angle, prev, stack, next⟩ := c
+  rcases hc with ⟨h1, h2⟩ | ⟨h1, h2⟩ <;> simp only at h1 h2 <;> subst h1 <;> subst h2
+  all_goals
+    by_cases h38 : ch = 38
+    · subst h38; simp [escapeByte, feed, step, refExpand, entity]; exact ⟨rfl, rfl, rfl, rfl, rfl, rfl⟩
+    by_cases h60 : ch = 60
+    · subst h60; simp [escapeByte, feed, step, refExpand, entity]; exact ⟨rfl, rfl, rfl, rfl, rfl, rfl⟩
+    by_cases h62 : ch = 62
+    · subst h62; simp [escapeByte, feed, step, refExpand, entity]; exact ⟨rfl, rfl, rfl, rfl, rfl, rfl⟩
+    by_cases h39 : ch = 39
+    · subst h39; simp [escapeByte, feed, step, refExpand, entity]; exact ⟨rfl, rfl, rfl, rfl, rfl, rfl⟩
+    by_cases h34 : ch = 34
+    · subst h34; simp [escapeByte, feed, step, refExpand, entity]; exact ⟨rfl, rfl, rfl, rfl, rfl, rfl⟩
+    simp [escapeByte, feed, step, h38, h60, h62, h39, h34]
+    exact ⟨rfl, rfl, rfl, rfl, rfl, rfl⟩
+
+/-- per-element version of `scan` for an encoder that maps every byte to a string -/
+theorem scanMap (g : Bool) (P : Cfg → Prop) (Q : UInt8 → Prop) (f : UInt8 → Bytes)
+    (hstep : ∀ c ch, P c → Q ch → ∃ c', feed g c (f ch) = .cont c' ∧ Upd c c' (c.b ++ [ch]))
+    (hP : ∀ c c' b', P c → Upd c c' b' → P c') :
+    ∀ (ks : Bytes) (c : Cfg), P c → (∀ ch ∈ ks, Q ch) →
+      ∃ c', feed g c (ks.flatMap f) = .cont c' ∧ Upd c c' (c.b ++ ks) := by
+  intro ks
+  induction ks with
+  | nil => intro c _ _; exact ⟨c, rfl, ⟨rfl, rfl, by simp, rfl, rfl, rfl⟩⟩
+  | cons k ks ih =>
+    intro c hc hq
+    obtain ⟨c1, h1, u1⟩ := hstep c k hc (hq k (by simp))
+    obtain ⟨c2, h2, u2⟩ := ih c1 (hP c c1 _ hc u1) (fun ch h => hq ch (by simp [h]))
+    refine ⟨c2, ?_, ?_⟩
+    · simp only [List.flatMap_cons]
+      rw [feed_append_cont h1]; exact h2
+    · have := u1.trans u2
+      rw [u1.b] at this
+      simpa using this
+
+theorem textLike_upd (c c' : Cfg) (b' : Bytes) (h : TextLike c) (u : Upd c c' b') : TextLike c' := by
+  unfold TextLike at *
+  rw [u.st, u.last]; exact h
+
+theorem takeWhile_nulfree (s : Bytes) (h : ∀ x ∈ s, x ≠ 0) : s.takeWhile (· != 0) = s := by
+  induction s with
+  | nil => rfl
+  | cons a t ih =>
+    have ha : a ≠ 0 := h a (by simp)
+    simp only [List.takeWhile_cons, bne_iff_ne, ne_eq, ha, not_false_eq_true, ↓reduceIte]
+    rw [ih (fun x hx => h x (by simp [hx]))]
+
+/-- `escape v` read back in `FREE` or inside a double-quoted attribute value appends exactly `v` -/
+theorem feed_escape (g : Bool) (v : Bytes) (c : Cfg) (hc : TextLike c) (h0 : ∀ x ∈ v, x ≠ 0) :
+    ∃ c', feed g c (escape v) = .cont c' ∧ Upd c c' (c.b ++ v) := by
+  unfold escape
+  rw [takeWhile_nulfree v h0]
+  exact scanMap g TextLike (fun ch => ch ≠ 0) escapeByte (feed_escapeByte g) textLike_upd v c hc h0
+
+
+/-! ## the DOM seen without identities -/
+
+abbrev AFrame := Bytes × List (Bytes × Bytes) × List Tree
+def fabs (f : Frame) : AFrame := (f.tag, f.attrs, eraseList f.children)
+def astack (c : Cfg) : List AFrame := c.stack.map fabs
+/-- blank test of the `FREE` `'<'` case -/
+def flushK (ks : List Tree) (w : Bytes) : List Tree := if w.any (fun x => !isWs x) then ks ++ [.text w] else ks
+def flushF (F : AFrame) (w : Bytes) : AFrame := (F.1, F.2.1, flushK F.2.2 w)
+def attachA (P E : AFrame) : AFrame := (P.1, P.2.1, P.2.2 ++ [.elem E.1 E.2.1 E.2.2])
+
+theorem erase_setParent (n : Node) (p : Nat) : (n.setParent p).erase = n.erase := by
+  cases n <;> simp [Node.setParent, Node.erase]
+
+theorem eraseList_append (a b : List Node) : eraseList (a ++ b) = eraseList a ++ eraseList b := by
+  induction a with
+  | nil => simp [eraseList]
+  | cons x xs ih => simp [eraseList, ih]
+
+theorem fabs_attach (p : Frame) (n : Node) : fabs (attach p n) = ((fabs p).1, (fabs p).2.1, (fabs p).2.2 ++ [n.erase]) := by
+  simp [fabs, attach, eraseList_append, eraseList, erase_setParent]
+
+theorem erase_toNode (f : Frame) : f.toNode.erase = .elem (fabs f).1 (fabs f).2.1 (fabs f).2.2 := by
+  simp [Frame.toNode, Node.erase, fabs]
+
+structure Sh (c : Cfg) (st last : St) (b : Bytes) (s : List AFrame) : Prop where
+  st : c.st = st
+  last : c.last = last
+  b : c.b = b
+  s : astack c = s
+
+theorem Sh.of_upd {c c' : Cfg} {st last : St} {b b' : Bytes} {s : List AFrame} (h : Sh c st last b s) (u : Upd c c' b') :
+    Sh c' st last b' s :=
+  ⟨u.st.trans h.st, u.last.trans h.last, u.b, by unfold astack; rw [u.stack]; exact h.s⟩
+
+/-- `FREE`, `'<'`: the pending text is attached unless blank -/
+theorem step_free_lt (g : Bool) (c : Cfg) (last : St) (w : Bytes) (F : AFrame) (r : List AFrame)
+    (h : Sh c .free last w (F :: r)) :
+    ∃ c', step g c 60 = .cont c' ∧ Sh c' .tagStart last [] (flushF F w :: r) := by
+  obtain ⟨st, last', b, ref, atname, angle, prev, stack, next⟩ := c
+  obtain ⟨h1, h2, h3, h4⟩ := h
+  simp only at h1 h2 h3; subst h1; subst h2; subst h3
+  cases stack with
+  | nil => simp [astack] at h4
+  | cons f rest =>
+    simp only [astack, List.map_cons, List.cons.injEq] at h4
+    obtain ⟨hf, hr⟩ := h4
+    by_cases hb : (b.any fun x => !isWs x) = true
+    · refine ⟨_, by simp [step, hb, topText, ofOpt]; rfl, ⟨rfl, rfl, rfl, ?_⟩⟩
+      simp [astack, fabs_attach, hf, hr, flushF, flushK, hb, Node.erase]
+    · refine ⟨_, by simp [step, hb]; rfl, ⟨rfl, rfl, rfl, ?_⟩⟩
+      simp [astack, hf, hr, flushF, flushK, hb]
+
 end AslProofs.Xml
